@@ -93,7 +93,7 @@ pub open spec fn spec_skipped(ds: Seq<Positioned<Directive>>, vars: Variables) -
 
 
 def skip_unit(kf):
-    u = Unit('c01_is_skipped', ['C01'], 'a selection is pruned exactly when one of its @skip/@include directives says so (every directive is consulted)')
+    u = Unit('c01_is_skipped', ['C01', 'C02'], 'a selection is pruned exactly when one of its @skip/@include directives says so (every directive is consulted)')
     u.kf = kf
     value_types(u)
     ast_types(u)
@@ -128,5 +128,5 @@ def skip_unit(kf):
     return u
 
 
-UNITS['c01_is_skipped'] = (['C01'], skip_unit)
+UNITS['c01_is_skipped'] = (['C01', 'C02'], skip_unit)   # remove_skipped_selection runs in prepare_request for static AND dynamic schemas
 SEARCH['c01_is_skipped'] = ['c01_exec']
